@@ -2,7 +2,7 @@
 from ..cfront import AnalysisError
 from ..ir import fmt, walk_expr, walk_stmts, dotted, orient
 from .. import sym, kernels
-from ..sym import var as V, const as C, add, sub
+from ..sym import var as V, const as C, add, sub, tmin
 from ..symexec import subst_expr, norm_minmax, reads_of
 from . import kern
 
@@ -173,6 +173,43 @@ def rule_psi2d(ctx, F, extreme='argmin'):
             conj = kern._conj(ev[1])
             okn = any(c == ('var', 'psi_neg') for c in conj)
             ctx.check(okn, 'R-PSI', F.file, F.name, 'psi_neg marking %s' % fmt(ev[2])[:60], 'cells are marked -1 without psi_neg being requested', ev[4].line)
+
+
+def rule_end_cell2d(ctx, F):
+    """Full-matrix kernel: every value read from the matrix as a single cell after the DP loops (the result without end relaxation, the anchor of the
+    relaxation slices) sits in the column of the last in-band cell of the last row, min(len2, len2 + window - 1) in matrix coordinates."""
+    amap = F.amap
+    want = tmin(V('L2'), sub(add(V('L2'), V('W')), C(1)))
+    n = 0
+    seen = set()
+    for ev in F.epilogue.events:
+        exprs = [ev[2], ev[3]] if ev[0] == 'store' else ([ev[2]] if ev[0] == 'return' and ev[2] is not None else [])
+        for e in exprs:
+            for x in walk_expr(e):
+                if x[0] == 'idx' and x[2][0] == 'tuple' and len(x[2][1]) == 2 and _base_is(x[1], F.arr):
+                    a, b = x[2][1]
+                    cols = []
+                    if b[0] != 'slice' and a[0] != 'slice':
+                        cols.append(b)
+                    elif a[0] == 'slice' and b[0] != 'slice':
+                        cols.append(b)                    # last-column scan: its column
+                    for cexp in cols:
+                        if cexp in seen:
+                            continue
+                        seen.add(cexp)
+                        try:
+                            t = kernels.term(norm_minmax(cexp), amap)
+                        except Exception:  # noqa
+                            ctx.undecided('R-PSI', '%s end cell column %s' % (F.name, fmt(cexp)[:60]), 'not a term over the lengths and the window')
+                            continue
+                        if not (sym.atoms(t) <= {'L1', 'L2', 'W'}):
+                            continue
+                        n += 1
+                        r = sym.equivalent(t, want, kern.BASE_DOM[:2] + [sub(V('W'), C(1))], box=kern.BOX)
+                        ctx.check(r[0] == 'equal', 'R-PSI', F.file, F.name, 'end cell column',
+                                  'the result is read in column %s of the matrix; the last in-band cell of the last row is in column min(len2, len2 + window - 1)%s'
+                                  % (sym.show(t), (' -- they differ at %s' % (r[1],)) if r[0] == 'differ' else ''), ev[-1].line if hasattr(ev[-1], 'line') else F.outer_line)
+    return n
 
 
 def _base_is(b, arr):
